@@ -13,6 +13,7 @@ import OFV.Proofs.C05Maj
 import OFV.Proofs.C05Srl
 import OFV.Proofs.C05TreeLadder
 import OFV.Proofs.C05Car
+import OFV.Proofs.C05SrlAll
 
 namespace OFV.C05
 open OFV OFV.Spec OFV.Model OFV.Model.C05 OFV.Sem OFV.BK OFV.BKT
@@ -139,6 +140,140 @@ chain is impossible: an even `i` in `P(j)` forces `j = i + 1 ∈ U(i)`), so the 
 the two empty lists it would return if no branch fired. -/
 theorem srl_cases_exhaustive (i j n : Nat) (coef : GQ) (hj : j < n) : (srl i j coef n).1 ≤ 10 :=
   srlTag_le i j n hj
+
+
+/-! ### `_seeley_richard_love`: every branch is the Bravyi-Kitaev image of `c a†_i a_j` -/
+
+/-- bridge: an operator that agrees with `bravyi_kitaev(c a†_i a_j)` on encoded states has the fermionic
+matrix elements -/
+theorem srl_of_den (tol : Rat) (htol : tol * tol ≤ 1 / 4) (n i j : Nat) (hi : i < n) (hj : j < n) (c : GQ)
+    (Q : Model.Op) (s s' : Nat)
+    (h : den .qubit Q [Spec.C05.enc .bk n s] [Spec.C05.enc .bk n s']
+      = den .qubit (bkTerm tol n [(i, 1), (j, 0)] c) [Spec.C05.enc .bk n s] [Spec.C05.enc .bk n s']) :
+    GV.coeff (applyOp .qubit Q [Spec.C05.enc .bk n s]) [Spec.C05.enc .bk n s']
+      = GV.coeff (applyOp .fermion [([(i, 1), (j, 0)], c)] [s]) [s'] := by
+  have := bk_term_exact tol htol n [(i, 1), (j, 0)]
+    (by intro f hf; simp at hf; rcases hf with rfl | rfl <;> simp <;> omega) c s s'
+  rw [← this]
+  exact h
+
+/-- **case 0 of `_seeley_richard_love`** (i = j: the number operator `c a†_i a_i = (c/2)(1 − Z_{O(i)})`): whenever this branch fires, the emitted strings with their
+coefficients act on every encoded state like `c a†_i a_j` — all `n`, all `i, j < n`, every complex `c`, on every
+exact run of `_qubit_operator_creation` (`srlOk`, evaluated by the driver on every generated input). -/
+theorem srl_sound_case_0 (tol : Rat) (htol : tol * tol ≤ 1 / 4) (n i j : Nat) (hi : i < n) (hj : j < n) (c : GQ)
+    (htag : (srl i j c n).1 = 0) (hok : srlOk tol i j c n = true) (s s' : Nat) :
+    GV.coeff (applyOp .qubit (srlOp tol i j c n) [Spec.C05.enc .bk n s]) [Spec.C05.enc .bk n s']
+      = GV.coeff (applyOp .fermion [([(i, 1), (j, 0)], c)] [s]) [s'] :=
+  srl_of_den tol htol n i j hi hj c _ s s' (srl_all tol htol n i j hi hj c hok s _)
+
+/-- **case 1 of `_seeley_richard_love`** (i, j even: `left = X_{U∖α} Y_α Z_{P0∖α}` times `Y_j X_i, X_j Y_i, X_j X_i, Y_j Y_i`, coefficient lists for `i < j` and `i > j`): whenever this branch fires, the emitted strings with their
+coefficients act on every encoded state like `c a†_i a_j` — all `n`, all `i, j < n`, every complex `c`, on every
+exact run of `_qubit_operator_creation` (`srlOk`, evaluated by the driver on every generated input). -/
+theorem srl_sound_case_1 (tol : Rat) (htol : tol * tol ≤ 1 / 4) (n i j : Nat) (hi : i < n) (hj : j < n) (c : GQ)
+    (htag : (srl i j c n).1 = 1) (hok : srlOk tol i j c n = true) (s s' : Nat) :
+    GV.coeff (applyOp .qubit (srlOp tol i j c n) [Spec.C05.enc .bk n s]) [Spec.C05.enc .bk n s']
+      = GV.coeff (applyOp .fermion [([(i, 1), (j, 0)], c)] [s]) [s'] :=
+  srl_of_den tol htol n i j hi hj c _ s s' (srl_all tol htol n i j hi hj c hok s _)
+
+/-- **case 2 of `_seeley_richard_love`** (i odd, j even, i ∉ P(j): two strings over `P0∖α`, two over `P2∖α`, both orders): whenever this branch fires, the emitted strings with their
+coefficients act on every encoded state like `c a†_i a_j` — all `n`, all `i, j < n`, every complex `c`, on every
+exact run of `_qubit_operator_creation` (`srlOk`, evaluated by the driver on every generated input). -/
+theorem srl_sound_case_2 (tol : Rat) (htol : tol * tol ≤ 1 / 4) (n i j : Nat) (hi : i < n) (hj : j < n) (c : GQ)
+    (htag : (srl i j c n).1 = 2) (hok : srlOk tol i j c n = true) (s s' : Nat) :
+    GV.coeff (applyOp .qubit (srlOp tol i j c n) [Spec.C05.enc .bk n s]) [Spec.C05.enc .bk n s']
+      = GV.coeff (applyOp .fermion [([(i, 1), (j, 0)], c)] [s]) [s'] :=
+  srl_of_den tol htol n i j hi hj c _ s s' (srl_all tol htol n i j hi hj c hok s _)
+
+/-- **case 3 of `_seeley_richard_love`** (i odd, j even, i ∈ P(j): strings over `P0∖{i}` and `P2∖{i}`): whenever this branch fires, the emitted strings with their
+coefficients act on every encoded state like `c a†_i a_j` — all `n`, all `i, j < n`, every complex `c`, on every
+exact run of `_qubit_operator_creation` (`srlOk`, evaluated by the driver on every generated input). -/
+theorem srl_sound_case_3 (tol : Rat) (htol : tol * tol ≤ 1 / 4) (n i j : Nat) (hi : i < n) (hj : j < n) (c : GQ)
+    (htag : (srl i j c n).1 = 3) (hok : srlOk tol i j c n = true) (s s' : Nat) :
+    GV.coeff (applyOp .qubit (srlOp tol i j c n) [Spec.C05.enc .bk n s]) [Spec.C05.enc .bk n s']
+      = GV.coeff (applyOp .fermion [([(i, 1), (j, 0)], c)] [s]) [s'] :=
+  srl_of_den tol htol n i j hi hj c _ s s' (srl_all tol htol n i j hi hj c hok s _)
+
+/-- **case 4 of `_seeley_richard_love`** (i even, j odd, i ∉ P(j), j ∉ U(i): strings over `P0∖α` and `P1∖α`, both orders): whenever this branch fires, the emitted strings with their
+coefficients act on every encoded state like `c a†_i a_j` — all `n`, all `i, j < n`, every complex `c`, on every
+exact run of `_qubit_operator_creation` (`srlOk`, evaluated by the driver on every generated input). -/
+theorem srl_sound_case_4 (tol : Rat) (htol : tol * tol ≤ 1 / 4) (n i j : Nat) (hi : i < n) (hj : j < n) (c : GQ)
+    (htag : (srl i j c n).1 = 4) (hok : srlOk tol i j c n = true) (s s' : Nat) :
+    GV.coeff (applyOp .qubit (srlOp tol i j c n) [Spec.C05.enc .bk n s]) [Spec.C05.enc .bk n s']
+      = GV.coeff (applyOp .fermion [([(i, 1), (j, 0)], c)] [s]) [s'] :=
+  srl_of_den tol htol n i j hi hj c _ s s' (srl_all tol htol n i j hi hj c hok s _)
+
+/-- **case 5 of `_seeley_richard_love`** (i even, j odd, i ∉ P(j), j ∈ U(i): `X_{U∖{j}}`-strings with `Y_α`, `Z_{P1 ∪ {j}}`): whenever this branch fires, the emitted strings with their
+coefficients act on every encoded state like `c a†_i a_j` — all `n`, all `i, j < n`, every complex `c`, on every
+exact run of `_qubit_operator_creation` (`srlOk`, evaluated by the driver on every generated input). -/
+theorem srl_sound_case_5 (tol : Rat) (htol : tol * tol ≤ 1 / 4) (n i j : Nat) (hi : i < n) (hj : j < n) (c : GQ)
+    (htag : (srl i j c n).1 = 5) (hok : srlOk tol i j c n = true) (s s' : Nat) :
+    GV.coeff (applyOp .qubit (srlOp tol i j c n) [Spec.C05.enc .bk n s]) [Spec.C05.enc .bk n s']
+      = GV.coeff (applyOp .fermion [([(i, 1), (j, 0)], c)] [s]) [s'] :=
+  srl_of_den tol htol n i j hi hj c _ s s' (srl_all tol htol n i j hi hj c hok s _)
+
+/-- **case 6 of `_seeley_richard_love`** (i even, j odd, i ∈ P(j), j ∈ U(i): two strings without Z-part, two over `P1 ∪ {j}`): whenever this branch fires, the emitted strings with their
+coefficients act on every encoded state like `c a†_i a_j` — all `n`, all `i, j < n`, every complex `c`, on every
+exact run of `_qubit_operator_creation` (`srlOk`, evaluated by the driver on every generated input). -/
+theorem srl_sound_case_6 (tol : Rat) (htol : tol * tol ≤ 1 / 4) (n i j : Nat) (hi : i < n) (hj : j < n) (c : GQ)
+    (htag : (srl i j c n).1 = 6) (hok : srlOk tol i j c n = true) (s s' : Nat) :
+    GV.coeff (applyOp .qubit (srlOp tol i j c n) [Spec.C05.enc .bk n s]) [Spec.C05.enc .bk n s']
+      = GV.coeff (applyOp .fermion [([(i, 1), (j, 0)], c)] [s]) [s'] :=
+  srl_of_den tol htol n i j hi hj c _ s s' (srl_all tol htol n i j hi hj c hok s _)
+
+/-- **case 7 of `_seeley_richard_love`** (i, j odd, i ∉ P(j), j ∉ U(i): the four strings over `P0..P3 ∖ α`, both orders): whenever this branch fires, the emitted strings with their
+coefficients act on every encoded state like `c a†_i a_j` — all `n`, all `i, j < n`, every complex `c`, on every
+exact run of `_qubit_operator_creation` (`srlOk`, evaluated by the driver on every generated input). -/
+theorem srl_sound_case_7 (tol : Rat) (htol : tol * tol ≤ 1 / 4) (n i j : Nat) (hi : i < n) (hj : j < n) (c : GQ)
+    (htag : (srl i j c n).1 = 7) (hok : srlOk tol i j c n = true) (s s' : Nat) :
+    GV.coeff (applyOp .qubit (srlOp tol i j c n) [Spec.C05.enc .bk n s]) [Spec.C05.enc .bk n s']
+      = GV.coeff (applyOp .fermion [([(i, 1), (j, 0)], c)] [s]) [s'] :=
+  srl_of_den tol htol n i j hi hj c _ s s' (srl_all tol htol n i j hi hj c hok s _)
+
+/-- **case 8 of `_seeley_richard_love`** (i, j odd, i ∈ P(j), j ∉ U(i): the four strings over `P0..P3 ∖ {i}`): whenever this branch fires, the emitted strings with their
+coefficients act on every encoded state like `c a†_i a_j` — all `n`, all `i, j < n`, every complex `c`, on every
+exact run of `_qubit_operator_creation` (`srlOk`, evaluated by the driver on every generated input). -/
+theorem srl_sound_case_8 (tol : Rat) (htol : tol * tol ≤ 1 / 4) (n i j : Nat) (hi : i < n) (hj : j < n) (c : GQ)
+    (htag : (srl i j c n).1 = 8) (hok : srlOk tol i j c n = true) (s s' : Nat) :
+    GV.coeff (applyOp .qubit (srlOp tol i j c n) [Spec.C05.enc .bk n s]) [Spec.C05.enc .bk n s']
+      = GV.coeff (applyOp .fermion [([(i, 1), (j, 0)], c)] [s]) [s'] :=
+  srl_of_den tol htol n i j hi hj c _ s s' (srl_all tol htol n i j hi hj c hok s _)
+
+/-- **case 9 of `_seeley_richard_love`** (i, j odd, i ∉ P(j), j ∈ U(i): the strings with `x_range_2/3`, `Z_{P1 ∪ {j}}`, `Z_{P3 ∪ {j}}`): whenever this branch fires, the emitted strings with their
+coefficients act on every encoded state like `c a†_i a_j` — all `n`, all `i, j < n`, every complex `c`, on every
+exact run of `_qubit_operator_creation` (`srlOk`, evaluated by the driver on every generated input). -/
+theorem srl_sound_case_9 (tol : Rat) (htol : tol * tol ≤ 1 / 4) (n i j : Nat) (hi : i < n) (hj : j < n) (c : GQ)
+    (htag : (srl i j c n).1 = 9) (hok : srlOk tol i j c n = true) (s s' : Nat) :
+    GV.coeff (applyOp .qubit (srlOp tol i j c n) [Spec.C05.enc .bk n s]) [Spec.C05.enc .bk n s']
+      = GV.coeff (applyOp .fermion [([(i, 1), (j, 0)], c)] [s]) [s'] :=
+  srl_of_den tol htol n i j hi hj c _ s s' (srl_all tol htol n i j hi hj c hok s _)
+
+/-- **case 10 of `_seeley_richard_love`** (i, j odd, i ∈ P(j), j ∈ U(i): the strings with `Z_j`): whenever this branch fires, the emitted strings with their
+coefficients act on every encoded state like `c a†_i a_j` — all `n`, all `i, j < n`, every complex `c`, on every
+exact run of `_qubit_operator_creation` (`srlOk`, evaluated by the driver on every generated input). -/
+theorem srl_sound_case_10 (tol : Rat) (htol : tol * tol ≤ 1 / 4) (n i j : Nat) (hi : i < n) (hj : j < n) (c : GQ)
+    (htag : (srl i j c n).1 = 10) (hok : srlOk tol i j c n = true) (s s' : Nat) :
+    GV.coeff (applyOp .qubit (srlOp tol i j c n) [Spec.C05.enc .bk n s]) [Spec.C05.enc .bk n s']
+      = GV.coeff (applyOp .fermion [([(i, 1), (j, 0)], c)] [s]) [s'] :=
+  srl_of_den tol htol n i j hi hj c _ s s' (srl_all tol htol n i j hi hj c hok s _)
+
+/-- **`_seeley_richard_love` is sound** (all eleven branches together, no hypothesis on which one fires):
+`⟨enc s'| srl(i, j, c, n) |enc s⟩ = ⟨s'| c a†_i a_j |s⟩` for every `n`, all `i, j < n`, every `c`. -/
+theorem srl_sound (tol : Rat) (htol : tol * tol ≤ 1 / 4) (n i j : Nat) (hi : i < n) (hj : j < n) (c : GQ)
+    (hok : srlOk tol i j c n = true) (s s' : Nat) :
+    GV.coeff (applyOp .qubit (srlOp tol i j c n) [Spec.C05.enc .bk n s]) [Spec.C05.enc .bk n s']
+      = GV.coeff (applyOp .fermion [([(i, 1), (j, 0)], c)] [s]) [s'] :=
+  srl_of_den tol htol n i j hi hj c _ s s' (srl_all tol htol n i j hi hj c hok s _)
+
+/-- … and it maps encoded states to encoded states only -/
+theorem srl_support (tol : Rat) (htol : tol * tol ≤ 1 / 4) (n i j : Nat) (hi : i < n) (hj : j < n) (c : GQ)
+    (hok : srlOk tol i j c n = true) (s x : Nat) (hx : ∀ s', Spec.C05.enc .bk n s' ≠ x) :
+    GV.coeff (applyOp .qubit (srlOp tol i j c n) [Spec.C05.enc .bk n s]) [x] = 0 := by
+  have h := srl_all tol htol n i j hi hj c hok s x
+  have := bk_term_support tol htol n [(i, 1), (j, 0)]
+    (by intro f hf; simp at hf; rcases hf with rfl | rfl <;> simp <;> omega) c s x hx
+  change den .qubit _ _ _ = 0
+  rw [h]
+  exact this
 
 /-! ### `bravyi_kitaev_tree` (FenwickTree built by recursive bisection), every `n` -/
 
@@ -280,6 +415,12 @@ example : bkFermionOk Generated.eqTolerance 5
 example : (((List.range 16).flatMap (fun i => (List.range 16).map fun j => srlTag i j 16)).eraseDups).length = 11 := by
   decide +kernel
 
+/-- the hypotheses of `srl_sound_case_k` hold on concrete inputs for every branch and both index orders
+(`n = 11`, not a power of two; complex coefficient): branch tag and exact-regime flag, kernel-evaluated -/
+example : (∀ t ∈ [(0, 0, 0), (1, 2, 0), (1, 0, 2), (2, 1, 0), (2, 1, 4), (3, 1, 2), (4, 2, 1), (4, 0, 5), (5, 0, 3), (6, 0, 1), (7, 3, 1), (7, 1, 5), (8, 3, 5), (9, 1, 7), (10, 1, 3)],
+    (srl t.2.1 t.2.2 ⟨mkRat 3 4, -2⟩ 11).1 = t.1 ∧ srlOk Generated.eqTolerance t.2.1 t.2.2 ⟨mkRat 3 4, -2⟩ 11 = true) := by
+  decide +kernel
+
 example : ∀ m ∈ [11, 0, 3, 11, 4], m / 2 < 6 := by decide
 
 /-- the exact-regime hypothesis of `tree_exact` on a concrete operator, `n = 6` (tree ≠ Fenwick there) -/
@@ -290,8 +431,6 @@ example : bkTreeFermionOk Generated.eqTolerance 6
 /-! ### statements of C05 that are NOT proved here (covered by correspondence + Spec oracle only; see
 `OPEN_STATEMENTS` in harness/c05.py)
 
-* `srl_sound` (open): for `i, j < n`, `⟨enc s'| srlOp i j c n |enc s⟩ = ⟨s'| c a†_i a_j |s⟩` (cases 1-10 of
-  `_seeley_richard_love`; only the exhaustiveness of the case split, `srl_cases_exhaustive`, is proved).
 * `bk_interaction_sound` (open): `bkInteractionOp N n …` denotes the tensor formula under `enc .bk n`, for all
   `n ≥ N` (would follow from `srl_sound` and the product/sum lemmas used for `bk_exact`).
 * isospectrality with Jordan-Wigner / preservation of expectation values as separate statements (they follow from
